@@ -40,10 +40,10 @@ def _list(rng, cls, n):
             out.append(c[0] * base[0] + c[1] * base[1] + c[2] * base[2] * base[0])
         return out
     if cls == 'single_nested':
-        idl = gen.make_idl(rng, 'contig', int(rng.integers(20, 40)))
+        idl = gen.make_idl(rng, str(rng.choice(['contig', 'strided', 'strided'])), int(rng.integers(20, 40)))
         out = []
         for _ in range(n):
-            sub = gen.sub_idl(rng, idl, str(rng.choice(['prefix', 'suffix', 'stride', 'random'])), nmin=8)
+            sub = gen.sub_idl(rng, idl, str(rng.choice(['prefix', 'suffix', 'stride', 'random', 'window', 'window'])), nmin=8)
             out.append(gen.make_obs(rng, [('A|r1', sub)], mean=float(rng.uniform(-1, 2)), sigma=float(rng.uniform(0.05, 1))))
         # correlate them a bit: add a common signal on the common configurations is not possible without changing idl; keep independent data
         return out
